@@ -130,6 +130,13 @@ func unitLeaves(r *core.Run, fn *ssa.Function, depth int, undecided *[]ssa.Instr
 				return
 			}
 		}
+		// a field of a row of a constant table (start := containerStart[c]; start.ok; return start.grammar, …)
+		if ks, ok := tableFieldValues(r, v, at); ok && len(ks) > 0 {
+			for _, k := range ks {
+				out = append(out, jsonLeaf{at: at, unit: k})
+			}
+			return
+		}
 		*undecided = append(*undecided, at)
 	}
 	for _, b := range fn.Blocks {
